@@ -16,7 +16,9 @@ P = {
         "eval_module": "Run.Eval_C03",
         # check fx1 .. fx7: the model with (true) / without (false) the repair of C03-Fn.  All in /repo: F1 (6793b33),
         # F2 (88da16a), F3 (20f92b3), F4 (22bae5e), F5 (16cf34b), F6 (72ba5d4), F7 (a779db8)
-        "check_term": "check true true true true true true true",
+        # the last argument is the variant of the slash-preserving decoder: D0 pinned, D7 after a779db8 (now),
+        # D8 with the candidate fixes/C03-F8.diff
+        "check_term": "check true true true true true true D7",
         "n_quick": 1200, "n_thorough": 30000, "shard": 100,
         "findings": {8: "C03-F8"},
     }],
